@@ -1,23 +1,25 @@
 import LopdfModel.Model.Outlines
+import LopdfModel.Thm.C12
 import LopdfModel.Gen.Tables
 /-
-  C13 — read-only queries are total on arbitrary object graphs: property theorems.
+  C13 — read-only queries are total on arbitrary object graphs: property theorems
+  (state of the code after the fixes e8b231c, cc9b602, 6000f3a, 79a3229, fc8a978).
 
-  Full statement (FALSE of the current code, see the witnesses below):
-      every read-only query returns a value or an error on every document.
-  What is proved:
-  * for every document, the queries that really are total never panic
-    (`getObjectMut_total`, `getPageContent_ok`, `getPageResources_total`, `getPageFonts_total`,
-    `getPageAnnotations_total`, `getFontEncoding_total`, …; the Option-valued models
-    `deref`, `getObject`, `getDictionary`, `catalog`, `getPageContents`, `getEncrypted`,
-    `getCryptFilters`, `pageIter` contain no panicking operation at all and terminate by their
-    fuel-free definitions);
-  * exact panic conditions / `_partial` theorems for the queries that are not total
-    (`get_page_images`, `build_outline_result`, `get_named_destinations`, `get_pages`),
-    each with a concrete counter-witness;
-  * the unguarded walkers diverge on cyclic documents for EVERY fuel.
+  * For EVERY document no read-only query panics: `getObjectMut_total`, `getPageContent_ok`,
+    `getPageResources_total`, `getPageFonts_total`, `getPageAnnotations_total`,
+    `getFontEncoding_total`, `getPageImages_total`, `buildOutlineResult_total`, `getOutline_total`,
+    `namedDests_no_panic`, `getOutlines_no_panic`, `getPages_total` / `getPages_eq_pageIter`,
+    `getObjectPage_total`, `getToc_no_panic` (the Option-valued models `deref`, `getObject`,
+    `getDictionary`, `catalog`, `getPageContents`, `getEncrypted`, `getCryptFilters`, `pageIter`
+    contain no panicking operation and terminate by their fuel-free definitions).
+  * `get_pages` allocates at most max(4, 2·pages) elements (`collectPages_capacity`).
+  * The `Next` loop of `get_outlines` is defined without fuel (seen_next measure); fuel runs out
+    only through nested `First` links (`walkOutlines_none`); a cyclic `Next` is an error
+    (`getOutlines_next_cycle_errors`).
+  * Still FALSE of the code (open findings F-C13-b2, F-C13-d4): cyclic `First` and cyclic name-tree
+    `Kids` recurse without bound — `getOutlines_first_cycle_diverges`, `namedDests_kids_cycle_diverges`.
 -/
-namespace Lopdf
+namespace Lopdf.Q13
 open Gen
 
 /-! ## dereference / lookup -/
@@ -145,17 +147,9 @@ theorem getFontEncoding_total (os : Objects) (font : Dict) (s : String) : getFon
 
 /-! ## get_page_images -/
 
-/-- the only panic of the `ColorSpace` match is the unchecked `array[0]` on an empty array -/
-theorem imageColorSpace_panic_iff (d : Dict) (s : String) :
-    imageColorSpace d = .panic s ↔ d.get K_ColorSpace = some (.arr []) ∧ s = S_IMAGES_CS := by
-  unfold imageColorSpace
-  split
-  · rename_i h; simp [h]; exact eq_comm
-  · rename_i h; simp [h]; split <;> simp
-  · rename_i h; simp [h]
-  · rename_i h1 h2 h3
-    simp
-    intro h; exact absurd h (h1 )
+theorem imageColorSpace_total (d : Dict) (s : String) : imageColorSpace d ≠ .panic s := by
+  unfold imageColorSpace; repeat' split
+  all_goals simp
 
 theorem imageFilters_total (d : Dict) (s : String) : imageFilters d ≠ .panic s := by
   unfold imageFilters; repeat' split
@@ -165,24 +159,17 @@ theorem imageBpc_total (d : Dict) (s : String) : imageBpc d ≠ .panic s := by
   unfold imageBpc; repeat' split
   all_goals simp
 
-theorem bind_asStream {o : Option Obj} {d : Dict} {c : Bytes} (h : o.bind Obj.asStream = some (d, c)) :
-    o = some (.stream d c) := by
-  cases o with
-  | none => simp at h
-  | some x => cases x <;> simp [Obj.asStream] at h; obtain ⟨h1, h2⟩ := h; subst h1; subst h2; rfl
-
-theorem imageOf_panic (os : Objects) (xv : Obj) (s : String) (h : imageOf os xv = .panic s) :
-    ∃ (id : ObjId) (d : Dict) (c : Bytes), getObject os id = some (.stream d c) ∧ d.get K_ColorSpace = some (.arr []) := by
+theorem imageOf_total (os : Objects) (xv : Obj) (s : String) : imageOf os xv ≠ .panic s := by
+  intro h
   unfold imageOf at h
   repeat' split at h
   all_goals first
     | (simp at h; done)
     | (exfalso; exact imageFilters_total _ _ ‹_›)
     | (exfalso; exact imageBpc_total _ _ ‹_›)
-    | exact ⟨_, _, _, bind_asStream ‹_›, ((imageColorSpace_panic_iff _ _).mp ‹_›).1⟩
+    | (exfalso; exact imageColorSpace_total _ _ ‹_›)
 
-theorem imagesLoop_panic (os : Objects) : ∀ (l : List (Bytes × Obj)) (s : String), imagesLoop os l = .panic s →
-    ∃ (id : ObjId) (d : Dict) (c : Bytes), getObject os id = some (.stream d c) ∧ d.get K_ColorSpace = some (.arr []) := by
+theorem imagesLoop_total (os : Objects) : ∀ (l : List (Bytes × Obj)) (s : String), imagesLoop os l ≠ .panic s := by
   intro l
   induction l with
   | nil => intro s h; simp [imagesLoop] at h
@@ -191,7 +178,7 @@ theorem imagesLoop_panic (os : Objects) : ∀ (l : List (Bytes × Obj)) (s : Str
     obtain ⟨k, xv⟩ := p
     unfold imagesLoop at h
     split at h
-    · rename_i s' hp; exact imageOf_panic os xv s' hp
+    · rename_i s' hp; exact imageOf_total os xv s' hp
     · simp at h
     · exact ih s h
     · cases hr : imagesLoop os rest with
@@ -199,135 +186,97 @@ theorem imagesLoop_panic (os : Objects) : ∀ (l : List (Bytes × Obj)) (s : Str
       | err e => simp [hr, Outcome.map] at h
       | panic s2 => exact ih s2 hr
 
-/-- **C13 for `get_page_images`, partial**: on every document in which no stream that `get_object`
-can return binds `ColorSpace` to the empty array, `get_page_images` returns a value or an error
-for every page id. (Full statement false: `getPageImages_witness`.) -/
-theorem getPageImages_partial (os : Objects)
-    (guard : ∀ (id : ObjId) (d : Dict) (c : Bytes), getObject os id = some (.stream d c) → d.get K_ColorSpace ≠ some (.arr []))
-    (pid : ObjId) (s : String) : getPageImages os pid ≠ .panic s := by
+/-- **C13 for `get_page_images`** (full, after e8b231c): for every document and page id the query
+returns a value or an error -/
+theorem getPageImages_total (os : Objects) (pid : ObjId) (s : String) : getPageImages os pid ≠ .panic s := by
   intro h
   unfold getPageImages at h
   split at h; · simp at h
   split at h; · simp at h
   split at h; · simp at h
-  obtain ⟨id, d, c, h1, h2⟩ := imagesLoop_panic os _ s h
-  exact guard id d c h1 h2
+  exact imagesLoop_total os _ s h
 
-/-- witness document of F-C13-a: page 3 with an image XObject whose `ColorSpace` is `[]` -/
-def imgWitness : Objects :=
-  [((3, 0), .dict [(TYPE, .name PAGE), (K_Resources, .dict [(K_XObject, .dict [([73, 109, 49], .ref 30 0)])])]),
-   ((30, 0), .stream [(K_Subtype, .name K_Image), (K_Width, .int 1), (K_Height, .int 1), (K_ColorSpace, .arr [])] [])]
-
-/-- **F-C13-a**: the full statement is false for `get_page_images` -/
-theorem getPageImages_witness : getPageImages imgWitness (3, 0) = .panic S_IMAGES_CS := by decide
-
-/-- non-vacuity of the guard: a document with an image whose ColorSpace is `[/DeviceRGB]` -/
+/-- the former witness of F-C13-a (image XObject with `ColorSpace []`) now yields an image without colour space -/
 example : getPageImages
-    [((3, 0), .dict [(K_Resources, .dict [(K_XObject, .dict [([73], .ref 30 0)])])]),
-     ((30, 0), .stream [(K_Subtype, .name K_Image), (K_Width, .int 1), (K_Height, .int 2),
-        (K_ColorSpace, .arr [.name [82]])] [])] (3, 0)
-    = .ok [⟨(30, 0), 1, 2, true, none, 0⟩] := by decide
+    [((3, 0), .dict [(TYPE, .name PAGE), (K_Resources, .dict [(K_XObject, .dict [([73, 109, 49], .ref 30 0)])])]),
+     ((30, 0), .stream [(K_Subtype, .name K_Image), (K_Width, .int 1), (K_Height, .int 1), (K_ColorSpace, .arr [])] [])]
+    (3, 0) = .ok [⟨(30, 0), 1, 1, false, none, 0⟩] := by decide
 
 /-! ## build_outline_result / get_outline / get_outlines -/
 
-/-- the destination `build_outline_result` finally inspects -/
-def resolveDest (os : Objects) (dest : Obj) : Option Obj :=
-  match dest with
-  | .ref a b => getObject os (a, b)
-  | d => some d
+theorem buildDirect_total (dest title : Obj) (named : Named) (s : String) : buildDirect dest title named ≠ .panic s := by
+  unfold buildDirect; repeat' split
+  all_goals simp
 
-theorem buildDirect_panic_iff (dest title : Obj) (named : Named) (s : String) :
-    buildDirect dest title named = .panic s ↔
-      (dest = .arr [] ∧ s = S_OUTLINE_0) ∨ (∃ x, dest = .arr [x] ∧ s = S_OUTLINE_1) := by
-  unfold buildDirect
+/-- **`build_outline_result` is total** (after cc9b602) -/
+theorem buildOutlineResult_total (os : Objects) (dest title : Obj) (named : Named) (s : String) :
+    buildOutlineResult os dest title named ≠ .panic s := by
+  unfold buildOutlineResult
   split
   · split
-    · simp; exact eq_comm
-    · simp; exact eq_comm
     · simp
-  · split <;> simp
-  · rename_i h1 h2
-    constructor
-    · intro h; simp at h
-    · rintro (⟨h, _⟩ | ⟨x, h, _⟩) <;> exact (h1 _ h).elim
+    · exact buildDirect_total _ _ _ _
+  · exact buildDirect_total _ _ _ _
 
-/-- **exact panic condition of `build_outline_result`** (F-C13-c): it panics iff the destination,
-after following a reference, is an array with fewer than two elements -/
-theorem buildOutlineResult_panic_iff (os : Objects) (dest title : Obj) (named : Named) :
-    (∃ s, buildOutlineResult os dest title named = .panic s) ↔
-      ∃ a, resolveDest os dest = some (.arr a) ∧ a.length < 2 := by
-  have key : ∀ d : Obj, (∃ s, buildDirect d title named = .panic s) ↔ ∃ a, d = .arr a ∧ a.length < 2 := by
-    intro d
-    constructor
-    · rintro ⟨s, h⟩
-      rcases (buildDirect_panic_iff d title named s).mp h with ⟨h1, _⟩ | ⟨x, h1, _⟩
-      · exact ⟨[], h1, by simp⟩
-      · exact ⟨[x], h1, by simp⟩
-    · rintro ⟨a, h1, h2⟩
-      match a, h2 with
-      | [], _ => exact ⟨_, (buildDirect_panic_iff d title named _).mpr (Or.inl ⟨h1, rfl⟩)⟩
-      | [x], _ => exact ⟨_, (buildDirect_panic_iff d title named _).mpr (Or.inr ⟨x, h1, rfl⟩)⟩
-  unfold buildOutlineResult resolveDest
-  split
-  · rename_i a b
-    cases hg : getObject os (a, b) with
-    | none =>
-      constructor
-      · rintro ⟨s, h⟩; simp at h
-      · rintro ⟨a, h, _⟩; simp only [] at h; rw [hg] at h; cases h
-    | some d' =>
-      show (∃ s, buildDirect d' title named = Outcome.panic s) ↔ _
-      rw [key d']; simp [hg]
-  · rename_i hnr
-    rw [key dest]
-    cases dest <;> simp
-    exact (hnr _ _ rfl).elim
-
-/-- **partial totality of `build_outline_result`** -/
-theorem buildOutlineResult_partial (os : Objects) (dest title : Obj) (named : Named)
-    (guard : ∀ a, resolveDest os dest = some (.arr a) → 2 ≤ a.length) (s : String) :
-    buildOutlineResult os dest title named ≠ .panic s := by
+/-- **`get_outline` is total** -/
+theorem getOutline_total (os : Objects) (node : Dict) (named : Named) (s : String) :
+    getOutline os node named ≠ .panic s := by
   intro h
-  obtain ⟨a, h1, h2⟩ := (buildOutlineResult_panic_iff os dest title named).mp ⟨s, h⟩
-  have := guard a h1; omega
-
-/-- `get_outline` adds no panic of its own: it panics only through `build_outline_result` -/
-theorem getOutline_panic (os : Objects) (node : Dict) (named : Named) (s : String)
-    (h : getOutline os node named = .panic s) :
-    ∃ dest title, buildOutlineResult os dest title named = .panic s := by
   unfold getOutline at h
   repeat' split at h
   all_goals first
     | (simp at h; done)
-    | exact ⟨_, _, h⟩
+    | exact buildOutlineResult_total _ _ _ _ _ h
 
-theorem firstStep_no_panic (walk : Dict → List Outline → Named → WalkRes) (os : Objects)
-    (hw : ∀ n a m s, walk n a m ≠ some (.panic s)) (node : Dict) (st : List Outline × Named) (s : String) :
-    firstStep walk os node st ≠ some (.panic s) := by
+theorem firstStep_no_panic (sub : Obj → Named → WalkRes) (hs : ∀ f m s, sub f m ≠ some (.panic s))
+    (node : Dict) (st : List Outline × Named) (s : String) : firstStep sub node st ≠ some (.panic s) := by
   unfold firstStep
   split
   · simp
   · split
     · simp
-    · split
-      · simp
-      · rename_i sub other hne
-        intro h; exact hw _ _ _ _ h
+    · intro h; exact hs _ _ _ h
 
-theorem nextStep_no_panic (walk : Dict → List Outline → Named → WalkRes) (os : Objects)
-    (hw : ∀ n a m s, walk n a m ≠ some (.panic s)) (node : Dict) (r : WalkRes) (s : String)
-    (hr : r ≠ some (.panic s)) : nextStep walk os node r ≠ some (.panic s) := by
-  unfold nextStep
-  split
-  · split
-    · exact hw _ _ _ _
-    · simp
-  · exact hr
+theorem firstStep_none (sub : Obj → Named → WalkRes) (node : Dict) (st : List Outline × Named)
+    (h : firstStep sub node st = none) : ∃ f m, sub f m = none := by
+  unfold firstStep at h
+  split at h
+  · simp at h
+  · split at h
+    · simp at h
+    · exact ⟨_, _, h⟩
 
-/-- the walker adds no panic of its own either: if `get_outline` cannot panic on this document,
-`get_outlines` (any fuel, any start node) does not panic -/
-theorem walkOutlines_no_own_panic (os : Objects)
-    (hsafe : ∀ node named s, getOutline os node named ≠ .panic s) :
+/-- the `Next` loop never panics if the `First` recursion does not -/
+theorem nextLoop_no_panic (os : Objects) (sub : Obj → Named → WalkRes) (hs : ∀ f m s, sub f m ≠ some (.panic s)) :
+    ∀ (node : Dict) (acc : List Outline) (named : Named) (seen : List ObjId) (s : String),
+      nextLoop os sub node acc named seen ≠ some (.panic s) := by
+  intro node acc named seen
+  fun_induction nextLoop os sub node acc named seen <;> intro s
+  all_goals first
+    | (rename_i hp; intro _; exact getOutline_total _ _ _ _ hp)
+    | (rename_i ih; exact ih s)
+    | (simp; done)
+    | (rename_i hfs; rw [hfs]; simp; done)
+    | (intro h; rename_i hfs _; rw [h] at hfs; exact firstStep_no_panic sub hs _ _ _ hfs)
+    | (exact firstStep_no_panic sub hs _ _ s)
+    | skip
+
+/-- **the `Next` loop itself always terminates**: being defined without fuel it returns `none`
+(= out of fuel) only when the recursion over some `First` link does -/
+theorem nextLoop_none (os : Objects) (sub : Obj → Named → WalkRes) :
+    ∀ (node : Dict) (acc : List Outline) (named : Named) (seen : List ObjId),
+      nextLoop os sub node acc named seen = none → ∃ f m, sub f m = none := by
+  intro node acc named seen
+  fun_induction nextLoop os sub node acc named seen
+  all_goals first
+    | (intro h; simp at h; done)
+    | (rename_i ih; exact ih)
+    | (intro h; rename_i hfs _; rw [h] at hfs; exact firstStep_none sub _ _ hfs)
+    | (exact firstStep_none sub _ _)
+    | skip
+
+/-- **`get_outlines` never panics**, for every document, node and fuel -/
+theorem walkOutlines_no_panic (os : Objects) :
     ∀ (fuel : Nat) (node : Dict) (acc : List Outline) (named : Named) (s : String),
       walkOutlines os fuel node acc named ≠ some (.panic s) := by
   intro fuel
@@ -336,11 +285,24 @@ theorem walkOutlines_no_own_panic (os : Objects)
   | succ n ih =>
     intro node acc named s
     unfold walkOutlines
+    apply nextLoop_no_panic
+    intro f m s'
     split
-    · rename_i s' hp; exact absurd hp (hsafe _ _ _)
-    · exact nextStep_no_panic _ os ih node _ s (firstStep_no_panic _ os ih node _ s)
+    · simp
+    · exact ih _ _ _ _
 
-/-! ### non-termination on cyclic links (F-C13-b, F-C13-b2) -/
+/-- fuel runs out only through NESTED `First` links: if `n+1` levels are not enough, some `First`
+object resolves to a node on which `n` levels are not enough -/
+theorem walkOutlines_none (os : Objects) (n : Nat) (node : Dict) (acc : List Outline) (named : Named)
+    (h : walkOutlines os (n + 1) node acc named = none) :
+    ∃ first sub m, outlineNode os first = some sub ∧ walkOutlines os n sub [] m = none := by
+  unfold walkOutlines at h
+  obtain ⟨f, m, hf⟩ := nextLoop_none os _ _ _ _ _ h
+  split at hf
+  · simp at hf
+  · rename_i sub hsub; exact ⟨f, sub, m, hsub, hf⟩
+
+/-! ### cyclic links -/
 
 def catRef : Dict := [(ROOT, .ref 1 0)]
 
@@ -352,23 +314,9 @@ def nextCycleDoc : Objects :=
 
 def item11 : Dict := [(K_Title, .str [84] .lit), (K_Next, .ref 11 0)]
 
-theorem nextCycle_walk : ∀ (n : Nat) (acc : List Outline) (named : Named),
-    walkOutlines nextCycleDoc n item11 acc named = none := by
-  intro n
-  induction n with
-  | zero => intro acc named; rfl
-  | succ n ih =>
-    intro acc named
-    unfold walkOutlines
-    have h1 : getOutline nextCycleDoc item11 named = .err "e" := by rfl
-    have h2 : getDictInDict nextCycleDoc item11 K_Next = some item11 := by rfl
-    have h3 : Dict.get item11 K_First = none := by rfl
-    simp only [h1, firstStep, nextStep, h3, h2]
-    exact ih _ _
-
-/-- **F-C13-b**: `get_outlines` (hence `get_toc`) does not terminate on a cyclic `Next` link:
-the fuelled model runs out of EVERY fuel. -/
-theorem getOutlines_next_cycle_diverges : ∀ n, getOutlines catRef nextCycleDoc n = none := by
+/-- **F-C13-b is repaired** (79a3229): on a cyclic `Next` link `get_outlines` stops with an error,
+with any fuel ≥ 1 (the former witness of non-termination) -/
+theorem getOutlines_next_cycle_errors : ∀ n, getOutlines catRef nextCycleDoc (n + 1) = some (.err "e") := by
   intro n
   unfold getOutlines
   have hc : catalog catRef nextCycleDoc = some [(K_Outlines, .ref 10 0)] := by rfl
@@ -376,7 +324,26 @@ theorem getOutlines_next_cycle_diverges : ∀ n, getOutlines catRef nextCycleDoc
   have hf : getDictInDict nextCycleDoc [(K_First, .ref 11 0)] K_First = some item11 := by rfl
   have hd : destTree nextCycleDoc [(K_Outlines, .ref 10 0)] = none := by rfl
   simp only [hc, ho, hf, hd]
-  exact nextCycle_walk n [] []
+  have h1 : ∀ named, getOutline nextCycleDoc item11 named = .err "e" := fun _ => rfl
+  have h3 : Dict.get item11 K_First = none := by rfl
+  have h4 : Dict.get item11 K_Next = some (.ref 11 0) := by rfl
+  have h5 : getDictionary nextCycleDoc (11, 0) = some item11 := by rfl
+  unfold walkOutlines
+  rw [nextLoop]
+  simp [h1, firstStep, h3, pushOutline]
+  split
+  · rename_i a b hn; rw [h4] at hn; cases hn
+    split
+    · rename_i next hd; rw [h5] at hd; cases hd
+      rw [nextLoop]
+      simp [h1, firstStep, h3, pushOutline]
+      split
+      · rename_i a b hn; rw [h4] at hn; cases hn; simp
+      · rename_i hn; rw [h4] at hn; cases hn
+      · rename_i hn _; exact absurd h4 (by intro h; exact (hn _ _ h))
+    · rename_i hd; rw [h5] at hd; cases hd
+  · rename_i hn; rw [h4] at hn; cases hn
+  · rename_i hn _; exact absurd h4 (by intro h; exact (hn _ _ h))
 
 /-- outline item 11 whose `First` is itself -/
 def firstCycleDoc : Objects :=
@@ -394,12 +361,14 @@ theorem firstCycle_walk : ∀ (n : Nat) (acc : List Outline) (named : Named),
   | succ n ih =>
     intro acc named
     unfold walkOutlines
-    have h1 : getOutline firstCycleDoc item11f named = .err "e" := by rfl
+    have h1 : ∀ named, getOutline firstCycleDoc item11f named = .err "e" := fun _ => rfl
     have h3 : Dict.get item11f K_First = some (.ref 11 0) := by rfl
     have h4 : outlineNode firstCycleDoc (.ref 11 0) = some item11f := by rfl
-    simp only [h1, firstStep, nextStep, h3, h4, ih]
+    rw [nextLoop]
+    simp [h1, firstStep, h3, h4, ih]
 
-/-- **F-C13-b2**: unbounded recursion of `get_outlines` on a cyclic `First` link -/
+/-- **F-C13-b2 (open)**: unbounded recursion of `get_outlines` on a cyclic `First` link — the fuelled
+model runs out of EVERY fuel -/
 theorem getOutlines_first_cycle_diverges : ∀ n, getOutlines catRef firstCycleDoc n = none := by
   intro n
   unfold getOutlines
@@ -411,81 +380,26 @@ theorem getOutlines_first_cycle_diverges : ∀ n, getOutlines catRef firstCycleD
   exact firstCycle_walk n [] []
 
 /-- `get_toc` inherits the divergence -/
-theorem getToc_next_cycle_diverges (memMax : Nat) : ∀ n, getToc memMax catRef nextCycleDoc n = none := by
-  intro n; unfold getToc; rw [getOutlines_next_cycle_diverges]
-
-/-- **F-C13-c witness**: an outline item with `Dest []` -/
-theorem getOutlines_dest_empty_panics :
-    getOutlines catRef
-      [((1, 0), .dict [(K_Outlines, .ref 10 0)]), ((10, 0), .dict [(K_First, .ref 11 0)]),
-       ((11, 0), .dict [(K_Title, .str [84] .lit), (K_Dest, .arr [])])] 3 = some (.panic S_OUTLINE_0) := by rfl
-
-theorem getOutlines_dest_short_panics :
-    getOutlines catRef
-      [((1, 0), .dict [(K_Outlines, .ref 10 0)]), ((10, 0), .dict [(K_First, .ref 11 0)]),
-       ((11, 0), .dict [(K_Title, .str [84] .lit), (K_Dest, .arr [.ref 3 0])])] 3 = some (.panic S_OUTLINE_1) := by rfl
-
-/-- non-vacuity: a well-formed two-item outline is walked to the end with little fuel -/
-example : (getOutlines catRef
-      [((1, 0), .dict [(K_Outlines, .ref 10 0)]), ((10, 0), .dict [(K_First, .ref 11 0)]),
-       ((11, 0), .dict [(K_Title, .str [84] .lit), (K_Dest, .arr [.ref 3 0, .name [70]]), (K_Next, .ref 12 0)]),
-       ((12, 0), .dict [(K_Title, .str [85] .lit), (K_Dest, .arr [.ref 3 0, .name [70]])])] 3).isSome = true := by rfl
+theorem getToc_first_cycle_diverges (memMax : Nat) : ∀ n, getToc memMax catRef firstCycleDoc n = none := by
+  intro n; unfold getToc; rw [getOutlines_first_cycle_diverges]
 
 /-! ## get_named_destinations -/
 
-/-- **exact panic condition of the destination insertion** (F-C13-d2, F-C13-d3): the unchecked
-`val[0]`, `val[1]` and `key.as_str().unwrap()` -/
-theorem insertDest_panic_iff (sIdx sKey : String) (key : Obj) (val : List Obj) (named : Named) (s : String) :
-    insertDest sIdx sKey key val named = .panic s ↔
-      (val.length < 2 ∧ s = sIdx) ∨ (2 ≤ val.length ∧ key.asStr = none ∧ s = sKey) := by
-  unfold insertDest
-  split
-  · simp; exact eq_comm
-  · simp; exact eq_comm
-  · rename_i v0 v1 tl
-    have hlen : ¬ ((v0 :: v1 :: tl).length < 2) := by simp
-    have hlen2 : 2 ≤ (v0 :: v1 :: tl).length := by simp
-    split
-    · constructor
-      · intro h; simp at h
-      · rintro (⟨h, _⟩ | ⟨_, h, _⟩)
-        · exact absurd h hlen
-        · simp [Obj.asStr] at h
-    · rename_i hk
-      constructor
-      · intro h
-        refine Or.inr ⟨hlen2, ?_, by simp at h; exact h.symm⟩
-        cases key <;> simp [Obj.asStr]
-        exact (hk _ _ rfl).elim
-      · rintro (⟨h, _⟩ | ⟨_, _, h⟩)
-        · exact absurd h hlen
-        · simp [h]
+theorem insertDestFromDict_total (key : Obj) (d : Dict) (named : Named) (s : String) :
+    insertDestFromDict key d named ≠ .panic s := by
+  unfold insertDestFromDict; repeat' split
+  all_goals simp
 
-/-- the dictionary form panics in addition when `D` is missing (F-C13-d) -/
-theorem insertDestFromDict_panic_iff (sD sIdx sKey : String) (key : Obj) (d : Dict) (named : Named) (s : String) :
-    insertDestFromDict sD sIdx sKey key d named = .panic s ↔
-      (d.get K_D = none ∧ s = sD) ∨
-      (∃ val, (d.get K_D).bind Obj.asArr = some val ∧ insertDest sIdx sKey key val named = .panic s) := by
-  unfold insertDestFromDict
-  split
-  · rename_i h; simp [h]; exact eq_comm
-  · rename_i dv h
-    split
-    · rename_i h2; simp [h, h2]
-    · rename_i val h2; simp [h, h2]
+theorem destOfPair_total (os : Objects) (key val : Obj) (named : Named) (s : String) :
+    destOfPair os key val named ≠ .panic s := by
+  unfold destOfPair
+  repeat' split
+  all_goals first
+    | exact insertDestFromDict_total _ _ _ _
+    | simp
 
-theorem namesLoop_cons (os : Objects) (key val : Obj) (rest : List Obj) (named : Named) :
-    namesLoop os (key :: val :: rest) named =
-      match destOfPair os key val named with
-      | .ok named' => namesLoop os rest named'
-      | .err e => .err e
-      | .panic s => .panic s := by
-  rw [namesLoop]; cases destOfPair os key val named <;> rfl
-
-/-- the `Names` loop adds no panic of its own: **partial totality** under the guard that no pair
-of the array triggers one of the three unchecked operations -/
-theorem namesLoop_partial (os : Objects)
-    (guard : ∀ key val named s, destOfPair os key val named ≠ .panic s) :
+/-- the `Names` loop is total (after 6000f3a), for arrays of any length -/
+theorem namesLoop_total (os : Objects) :
     ∀ (n : Nat) (l : List Obj) (named : Named) (s : String), l.length ≤ n → namesLoop os l named ≠ .panic s := by
   intro n
   induction n with
@@ -496,17 +410,66 @@ theorem namesLoop_partial (os : Objects)
     | [] => simp [namesLoop]
     | [_] => simp [namesLoop]
     | key :: val :: rest =>
-      rw [namesLoop_cons]
+      rw [namesLoop]
       split
       · exact ih rest _ s (by simp at hl; omega)
       · simp
-      · rename_i s' h; exact absurd h (guard _ _ _ _)
+      · rename_i s' h; exact absurd h (destOfPair_total _ _ _ _ _)
+
+theorem namesPart_total (os : Objects) (tree : Dict) (named : Named) (s : String) : namesPart os tree named ≠ .panic s := by
+  unfold namesPart
+  split
+  · simp
+  · split
+    · simp
+    · exact namesLoop_total os _ _ _ _ (Nat.le_refl _)
+
+/-- **`get_named_destinations` never panics**, for every document, tree and fuel -/
+theorem namedDests_no_panic (os : Objects) :
+    ∀ (fuel : Nat) (tree : Dict) (named : Named) (s : String), namedDests os fuel tree named ≠ some (.panic s) := by
+  intro fuel
+  induction fuel with
+  | zero => intro tree named s; simp [namedDests]
+  | succ n ih =>
+    intro tree named s
+    unfold namedDests
+    have hfold : ∀ (ks : List Obj) (a : Option (Outcome Named)), a ≠ some (.panic s) →
+        ks.foldl (fun (acc : Option (Outcome Named)) (kid : Obj) =>
+            match acc with
+            | some (.ok nm) =>
+              match kid.asRef.bind (getDictionary os) with
+              | some kd => namedDests os n kd nm
+              | none => some (.ok nm)
+            | other => other) a ≠ some (.panic s) := by
+      intro ks
+      induction ks with
+      | nil => intro a ha; simpa using ha
+      | cons k rest ihk =>
+        intro a ha
+        simp only [List.foldl_cons]
+        apply ihk
+        split
+        · split
+          · exact ih _ _ _
+          · simp
+        · exact ha
+    intro h
+    simp only at h
+    split at h
+    · rename_i nm hk
+      simp at h; exact namesPart_total os tree nm s h
+    · rename_i other hne
+      split at h
+      · simp at h
+      · split at h
+        · simp at h
+        · exact hfold _ _ (by simp) h
 
 /-- tree 15 whose `Kids` contains itself -/
 def kidsCycleDoc : Objects := [((15, 0), .dict [(KIDS, .arr [.ref 15 0])])]
 def tree15 : Dict := [(KIDS, .arr [.ref 15 0])]
 
-/-- **F-C13-d4**: `get_named_destinations` recurses without bound on a cyclic `Kids` link -/
+/-- **F-C13-d4 (open)**: `get_named_destinations` recurses without bound on a cyclic `Kids` link -/
 theorem namedDests_kids_cycle_diverges : ∀ (n : Nat) (named : Named), namedDests kidsCycleDoc n tree15 named = none := by
   intro n
   induction n with
@@ -518,42 +481,33 @@ theorem namedDests_kids_cycle_diverges : ∀ (n : Nat) (named : Named), namedDes
     have h2 : (Obj.ref 15 0).asRef.bind (getDictionary kidsCycleDoc) = some tree15 := by rfl
     simp only [h1, Obj.asArr, List.foldl, h2, ih]
 
-/-- **F-C13-d witness**: a named destination dictionary without `D` -/
-theorem namedDests_missing_D_panics :
-    namedDests [((31, 0), .dict [([88], .null)])] 2 [(K_Names, .arr [.str [107] .lit, .ref 31 0])] []
-      = some (.panic S_DEST_REFDICT_D) := by rfl
-
-/-- **F-C13-d2 witness**: destination array of length 1 -/
-theorem namedDests_short_array_panics :
-    namedDests [((31, 0), .arr [.ref 3 0])] 2 [(K_Names, .arr [.str [107] .lit, .ref 31 0])] []
-      = some (.panic S_DEST_REFARR_IDX) := by rfl
-
-/-- **F-C13-d3 witness**: the key of a pair is not a string -/
-theorem namedDests_key_not_string_panics :
-    namedDests [] 2 [(K_Names, .arr [.name [107], .dict [(K_D, .arr [.ref 3 0, .name [70]])]])] []
-      = some (.panic S_DEST_DICT_KEY) := by rfl
-
-/-- non-vacuity: a well-formed leaf is loaded -/
+/-- the former witnesses of F-C13-d / d2 / d3 are now skipped entries -/
+example : namedDests [((31, 0), .dict [([88], .null)])] 2 [(K_Names, .arr [.str [107] .lit, .ref 31 0])] []
+    = some (.ok []) := by rfl
+example : namedDests [((31, 0), .arr [.ref 3 0])] 2 [(K_Names, .arr [.str [107] .lit, .ref 31 0])] []
+    = some (.ok []) := by rfl
+example : namedDests [] 2 [(K_Names, .arr [.name [107], .dict [(K_D, .arr [.ref 3 0, .name [70]])]])] []
+    = some (.ok []) := by rfl
+/-- a well-formed leaf is loaded -/
 example : (namedDests [((31, 0), .dict [(K_D, .arr [.ref 3 0, .name [70]])])] 2
-    [(K_Names, .arr [.str [107] .lit, .ref 31 0])] []).isSome = true := by rfl
+    [(K_Names, .arr [.str [107] .lit, .ref 31 0])] []).map (fun r => r.map List.length) = some (.ok 1) := by rfl
 
-/-! ## get_toc -/
-
-/-- `get_toc` adds no panic of its own: it panics only through `get_outlines` or `get_pages` -/
-theorem getToc_panic (memMax : Nat) (trailer : Dict) (os : Objects) (fuel : Nat) (s : String)
-    (h : getToc memMax trailer os fuel = some (.panic s)) :
-    getOutlines trailer os fuel = some (.panic s) ∨ getPages memMax trailer os = .panic s := by
-  unfold getToc at h
+/-- **`get_outlines(None, None, ..)` never panics**, for every document and fuel -/
+theorem getOutlines_no_panic (trailer : Dict) (os : Objects) (fuel : Nat) (s : String) :
+    getOutlines trailer os fuel ≠ some (.panic s) := by
+  intro h
+  unfold getOutlines at h
+  split at h; · simp at h
+  split at h; · simp at h
+  simp only at h
   split at h
   · simp at h
   · simp at h
-  · rename_i s' h'; simp at h; subst h; exact Or.inl h'
-  · split at h
-    · simp at h
-    · split at h
-      · simp at h
-      · rename_i s' h'; simp at h; subst h; exact Or.inr h'
-      · simp at h
+  · rename_i s' hn
+    split at hn
+    · simp at hn
+    · exact namedDests_no_panic _ _ _ _ _ hn
+  · exact walkOutlines_no_panic _ _ _ _ _ _ h
 
 /-! ## decode_text with the one-byte tables -/
 
@@ -570,20 +524,9 @@ theorem oneByte_tables_no_surrogate :
     noSurrogate PDF_DOC_ENCODING = true := by
   refine ⟨?_, ?_, ?_, ?_, ?_⟩ <;> decide +kernel
 
-/-! ## get_pages: size_hint and collect -/
+/-! ## get_pages: `collect()` over the page iterator -/
 
-/-- a property of iterator states that the iterator's own transitions preserve -/
-structure IterInv (cls : Obj → Cls) (Inv : Option (List Obj) → List (List Obj) → Prop) : Prop where
-  skip : ∀ kid rest stk, Inv (some (kid :: rest)) stk → Inv (some rest) stk
-  down : ∀ kid rest stk ks, Inv (some (kid :: rest)) stk → cls kid = .pages ks →
-    stk.length < PAGE_TREE_DEPTH_LIMIT → Inv ks (if rest.isEmpty then stk else rest :: stk)
-  popS : ∀ top st, Inv (some []) (top :: st) → Inv (some top) st
-  popN : ∀ top st, Inv none (top :: st) → Inv (some top) st
-
-theorem satAdd1_le (n : Nat) : satAdd1 n ≤ n + 1 := by
-  unfold satAdd1; split
-  · omega
-  · rename_i h; simp [USIZE] at *; omega
+theorem satAdd1_zero : satAdd1 0 = 1 := by decide
 
 theorem allocCheck_ok (esz memMax cap C : Nat) (hc : cap ≤ C) (hmem : C * esz ≤ memMax) (hM : memMax ≤ ISIZE_MAX) :
     allocCheck esz memMax cap = .ok () := by
@@ -591,287 +534,163 @@ theorem allocCheck_ok (esz memMax cap C : Nat) (hc : cap ≤ C) (hmem : C * esz 
   unfold allocCheck
   rw [if_neg (by omega), if_neg (by omega)]
 
-theorem afterYield_ok (hint : Option (List Obj) → List (List Obj) → Nat) (esz memMax H L : Nat)
-    (k : Option (List Obj)) (stk : List (List Obj)) (len cap : Nat)
-    (hH : hint k stk ≤ H) (hmem : (2 * L + H + 4) * esz ≤ memMax) (hM : memMax ≤ ISIZE_MAX) (hesz : 1 ≤ esz)
-    (hlen : len ≤ L) (hcap : cap ≤ 2 * L + H + 4) :
-    ∃ cap', afterYield hint esz memMax k stk len cap = .ok cap' ∧ cap' ≤ 2 * L + H + 4 := by
-  have hC : 2 * L + H + 4 ≤ ISIZE_MAX := by
-    have : (2 * L + H + 4) * 1 ≤ (2 * L + H + 4) * esz := Nat.mul_le_mul_left _ hesz
+/-- room for one more element: the new capacity is at most max(4, 2·(len+1)) — it depends on the
+number of elements only, not on anything in the file (`SIZE_HINT_LOWER = 0`, regenerated) -/
+theorem afterYield_ok (esz memMax L len cap : Nat)
+    (hmem : (2 * L + 4) * esz ≤ memMax) (hM : memMax ≤ ISIZE_MAX) (hesz : 1 ≤ esz)
+    (hlen : len + 1 ≤ L) (hcap : cap ≤ max 4 (2 * len)) :
+    ∃ cap', afterYield esz memMax len cap = .ok cap' ∧ cap' ≤ max 4 (2 * (len + 1)) := by
+  have hC : 2 * L + 4 ≤ ISIZE_MAX := by
+    have : (2 * L + 4) * 1 ≤ (2 * L + 4) * esz := Nat.mul_le_mul_left _ hesz
     omega
   have hU : ISIZE_MAX < USIZE := by decide
-  have hs := satAdd1_le (hint k stk)
   unfold afterYield
   split
-  · rw [if_neg (by omega)]
-    unfold growCap
+  · unfold growCap
+    simp only [SIZE_HINT_LOWER, satAdd1_zero]
     split
-    · have hc : max 4 (satAdd1 (hint k stk)) ≤ 2 * L + H + 4 := by omega
-      dsimp only
+    · have hc : max 4 1 ≤ 2 * L + 4 := by omega
       rw [allocCheck_ok esz memMax _ _ hc hmem hM]
-      exact ⟨_, rfl, hc⟩
+      exact ⟨_, rfl, by omega⟩
     · rw [if_neg (by omega)]
-      have hc : max (max (2 * cap) (len + satAdd1 (hint k stk))) 4 ≤ 2 * L + H + 4 := by
+      have hc : max (max (2 * cap) (len + 1)) 4 ≤ max 4 (2 * (len + 1)) := by
         rename_i h1 h2
         have : len = cap := by omega
         omega
-      dsimp only
-      rw [allocCheck_ok esz memMax _ _ hc hmem hM]
+      rw [allocCheck_ok esz memMax _ (2 * L + 4) (by omega) hmem hM]
       exact ⟨_, rfl, hc⟩
-  · exact ⟨cap, rfl, hcap⟩
+  · exact ⟨cap, rfl, by omega⟩
 
-/-- **`get_pages` / `page_iter().collect()`, partial**: if on every iterator state the run can
-reach (any transition-closed `Inv`) `size_hint` stays below a bound `H` for which the vector's
-final capacity still fits the memory the process can obtain, the collection neither panics nor
-aborts. (Full statement false: `getPages_*_witness` — `Count` is attacker-chosen.) -/
-theorem runCap_partial (cls : Obj → Cls) (hint : Option (List Obj) → List (List Obj) → Nat)
-    (esz memMax H L : Nat) (Inv : Option (List Obj) → List (List Obj) → Prop) (hinv : IterInv cls Inv)
-    (hH : ∀ k s, Inv k s → hint k s ≤ H)
-    (hmem : (2 * L + H + 4) * esz ≤ memMax) (hM : memMax ≤ ISIZE_MAX) (hesz : 1 ≤ esz) :
+theorem step_len {len limit L : Nat} (h : ¬limit = 0) (hl : len + limit ≤ L) :
+    len + 1 ≤ L ∧ len + 1 + (limit - 1) ≤ L := by omega
+
+/-- **specification of `page_iter().collect()`** (after fc8a978), all documents: with memory for
+max(4, 2·|objects|) elements the collection returns exactly C12's enumeration `run`, and the
+vector's capacity is at most max(4, 2·number of pages) -/
+theorem runCap_spec (cls : Obj → Cls) (esz memMax L : Nat)
+    (hmem : (2 * L + 4) * esz ≤ memMax) (hM : memMax ≤ ISIZE_MAX) (hesz : 1 ≤ esz) :
     ∀ (k : Option (List Obj)) (stk : List (List Obj)) (lim len cap : Nat),
-      Inv k stk → len + lim ≤ L → cap ≤ 2 * L + H + 4 →
-      ∀ s, runCap cls hint esz memMax k stk lim len cap ≠ .panic s := by
+      len + lim ≤ L → cap ≤ max 4 (2 * len) →
+      ∃ c, runCap cls esz memMax k stk lim len cap = .ok (run cls k stk lim, c) ∧
+        c ≤ max 4 (2 * (len + (run cls k stk lim).length)) := by
   intro k stk lim len cap
-  fun_induction runCap cls hint esz memMax k stk lim len cap with
-  | case1 kid rest stack len cap => intro _ _ _ s; simp
+  fun_induction runCap cls esz memMax k stk lim len cap with
+  | case1 kid rest stack len cap => intro _ hc; rw [run]; simp; omega
   | case2 kid rest stack limit len cap h hc ih =>
-    intro hI hl hcp s; exact ih (hinv.skip _ _ _ hI) (by omega) hcp s
+    intro hl hcp; rw [run]; simp only [h, hc, if_false]; exact ih (by omega) hcp
   | case3 kid rest stack limit len cap h id hc s' hay =>
-    intro hI hl hcp s
-    obtain ⟨c', h1, _⟩ := afterYield_ok hint esz memMax H L (some rest) stack len cap
-      (hH _ _ (hinv.skip _ _ _ hI)) hmem hM hesz (by omega) hcp
+    intro hl hcp
+    obtain ⟨c', h1, _⟩ := afterYield_ok esz memMax L len cap hmem hM hesz (step_len h hl).1 hcp
     rw [h1] at hay; cases hay
   | case4 kid rest stack limit len cap h id hc e hay =>
-    intro _ _ _ s; simp
-  | case5 kid rest stack limit len cap h id hc cap' hay l hr ih =>
-    intro _ _ _ s; simp
-  | case6 kid rest stack limit len cap h id hc cap' hay e hr ih =>
-    intro _ _ _ s; simp
-  | case7 kid rest stack limit len cap h id hc cap' hay s' hr ih =>
-    intro hI hl hcp s
-    obtain ⟨c', h1, h2⟩ := afterYield_ok hint esz memMax H L (some rest) stack len cap
-      (hH _ _ (hinv.skip _ _ _ hI)) hmem hM hesz (by omega) hcp
+    intro hl hcp
+    obtain ⟨c', h1, _⟩ := afterYield_ok esz memMax L len cap hmem hM hesz (step_len h hl).1 hcp
     rw [h1] at hay; cases hay
-    exact absurd hr (ih (hinv.skip _ _ _ hI) (by omega) h2 s')
+  | case5 kid rest stack limit len cap h id hc cap' hay l c hr ih =>
+    intro hl hcp
+    obtain ⟨c', h1, h2⟩ := afterYield_ok esz memMax L len cap hmem hM hesz (step_len h hl).1 hcp
+    rw [h1] at hay; cases hay
+    obtain ⟨c2, h3, h4⟩ := ih (step_len h hl).2 h2
+    rw [hr] at h3; cases h3
+    rw [run]; simp only [h, hc, if_false, List.length_cons]
+    exact ⟨_, rfl, by have e : len + 1 + (run cls (some rest) stack (limit - 1)).length = len + ((run cls (some rest) stack (limit - 1)).length + 1) := by omega
+                      rw [← e]; exact h4⟩
+  | case6 kid rest stack limit len cap h id hc cap' hay e hr ih =>
+    intro hl hcp
+    obtain ⟨c', h1, h2⟩ := afterYield_ok esz memMax L len cap hmem hM hesz (step_len h hl).1 hcp
+    rw [h1] at hay; cases hay
+    obtain ⟨c2, h3, _⟩ := ih (step_len h hl).2 h2
+    rw [hr] at h3; cases h3
+  | case7 kid rest stack limit len cap h id hc cap' hay s' hr ih =>
+    intro hl hcp
+    obtain ⟨c', h1, h2⟩ := afterYield_ok esz memMax L len cap hmem hM hesz (step_len h hl).1 hcp
+    rw [h1] at hay; cases hay
+    obtain ⟨c2, h3, _⟩ := ih (step_len h hl).2 h2
+    rw [hr] at h3; cases h3
   | case8 kid rest stack limit len cap h ks hc hd ih =>
-    intro hI hl hcp s; exact ih (hinv.down _ _ _ _ hI hc hd) (by omega) hcp s
+    intro hl hcp; rw [run]; simp only [h, hc, hd, if_false, if_true]
+    have := ih (by omega) hcp; simpa using this
   | case9 kid rest stack limit len cap h ks hc hd ih =>
-    intro hI hl hcp s; exact ih (hinv.skip _ _ _ hI) (by omega) hcp s
-  | case10 top st limit len cap ih => intro hI hl hcp s; exact ih (hinv.popS _ _ hI) hl hcp s
-  | case11 top st limit len cap ih => intro hI hl hcp s; exact ih (hinv.popN _ _ hI) hl hcp s
-  | case12 l len cap => intro _ _ _ s; simp
-  | case13 l len cap => intro _ _ _ s; simp
+    intro hl hcp; rw [run]; simp only [h, hc, hd, if_false]; exact ih (by omega) hcp
+  | case10 top st limit len cap ih => intro hl hcp; rw [run]; exact ih hl hcp
+  | case11 top st limit len cap ih => intro hl hcp; rw [run]; exact ih hl hcp
+  | case12 l len cap => intro _ hc; rw [run]; simp; omega
+  | case13 l len cap => intro _ hc; rw [run]; simp; omega
 
-/-- when the collection succeeds, the collected ids are exactly C12's enumeration: the capacity
-bookkeeping never changes which pages are found -/
-theorem runCap_ok_eq_run (cls : Obj → Cls) (hint : Option (List Obj) → List (List Obj) → Nat) (esz memMax : Nat) :
-    ∀ (k : Option (List Obj)) (stk : List (List Obj)) (lim len cap : Nat) (l : List ObjId),
-      runCap cls hint esz memMax k stk lim len cap = .ok l → l = run cls k stk lim := by
-  intro k stk lim len cap
-  fun_induction runCap cls hint esz memMax k stk lim len cap with
-  | case1 kid rest stack len cap => intro l h; rw [run]; simp at h; simp [h]
-  | case2 kid rest stack limit len cap h hc ih => intro l hl; rw [run]; simp [h, hc]; exact ih l hl
-  | case3 kid rest stack limit len cap h id hc s' hay => intro l hl; simp at hl
-  | case4 kid rest stack limit len cap h id hc e hay => intro l hl; simp at hl
-  | case5 kid rest stack limit len cap h id hc cap' hay l' hr ih =>
-    intro l hl; rw [run]; simp [h, hc]; simp at hl; subst hl; simp; exact ih l' hr
-  | case6 kid rest stack limit len cap h id hc cap' hay e hr ih => intro l hl; simp at hl
-  | case7 kid rest stack limit len cap h id hc cap' hay s' hr ih => intro l hl; simp at hl
-  | case8 kid rest stack limit len cap h ks hc hd ih =>
-    intro l hl; rw [run]; simp [h, hc, hd]; have := ih l hl; simpa using this
-  | case9 kid rest stack limit len cap h ks hc hd ih => intro l hl; rw [run]; simp [h, hc, hd]; exact ih l hl
-  | case10 top st limit len cap ih => intro l hl; rw [run]; exact ih l hl
-  | case11 top st limit len cap ih => intro l hl; rw [run]; exact ih l hl
-  | case12 l len cap => intro l' hl; rw [run]; simp at hl; simp [hl]
-  | case13 l len cap => intro l' hl; rw [run]; simp at hl; simp [hl]
+theorem pageIter_eq (trailer : Dict) (os : Objects) :
+    pageIter trailer os = match pageRoot trailer os with
+      | some pid => run (classify os) (kidsOf os pid) [] os.length
+      | none => [] := by
+  unfold pageIter pageRoot; rfl
 
-/-- `get_pages`, when it returns, returns C12's `page_iter` enumeration -/
-theorem getPages_ok_eq_pageIter (memMax : Nat) (trailer : Dict) (os : Objects) (l : List ObjId)
-    (h : getPages memMax trailer os = .ok l) : l = pageIter trailer os := by
-  unfold getPages collectPages at h
-  unfold pageIter
-  simp only [pageRoot] at h ⊢
-  split at h
-  · rename_i pid hp; simp only [hp]; exact runCap_ok_eq_run _ _ _ _ _ _ _ _ _ _ h
-  · rename_i hp; simp only [hp]; simp at h; exact h
-
-/-- root `Kids` = [page 3, `Pages` node 20, 21, 22 with the given `Count`s] -/
-def countDoc (c1 c2 c3 : Int) : Objects :=
-  [((1, 0), .dict [(PAGES, .ref 2 0)]),
-   ((2, 0), .dict [(TYPE, .name PAGES), (KIDS, .arr [.ref 3 0, .ref 20 0, .ref 21 0, .ref 22 0])]),
-   ((3, 0), .dict [(TYPE, .name PAGE)]),
-   ((20, 0), .dict [(TYPE, .name PAGES), (KIDS, .arr []), (K_Count, .int c1)]),
-   ((21, 0), .dict [(TYPE, .name PAGES), (KIDS, .arr []), (K_Count, .int c2)]),
-   ((22, 0), .dict [(TYPE, .name PAGES), (KIDS, .arr []), (K_Count, .int c3)])]
-
-theorem getPages_first_yield (memMax : Nat) (c1 c2 c3 : Int) (s : String)
-    (h : afterYield (sizeHintRaw (countDoc c1 c2 c3)) 12 memMax (some [.ref 20 0, .ref 21 0, .ref 22 0]) [] 0 0 = .panic s) :
-    getPages memMax catRef (countDoc c1 c2 c3) = .panic s := by
-  have hroot : pageRoot catRef (countDoc c1 c2 c3) = some (2, 0) := by rfl
-  have hk : kidsOf (countDoc c1 c2 c3) (2, 0) = some [.ref 3 0, .ref 20 0, .ref 21 0, .ref 22 0] := by rfl
-  have hc : classify (countDoc c1 c2 c3) (.ref 3 0) = .page (3, 0) := by rfl
-  have hl : (countDoc c1 c2 c3).length = 6 := rfl
+/-- **`get_pages` is total and equals C12's enumeration** (full statement, every document — cyclic,
+ill-typed, any `Count`): given memory for max(4, 2·|objects|) twelve-byte elements it returns
+`page_iter`'s ids. `Count` no longer influences anything. -/
+theorem getPages_eq_pageIter (memMax : Nat) (trailer : Dict) (os : Objects)
+    (hmem : (2 * os.length + 4) * 12 ≤ memMax) (hM : memMax ≤ ISIZE_MAX) :
+    getPages memMax trailer os = .ok (pageIter trailer os) := by
+  rw [pageIter_eq]
   unfold getPages collectPages
-  rw [hroot]; simp only []; rw [hk, hl, runCap]
-  simp [hc, h]
+  cases hr : pageRoot trailer os with
+  | some pid =>
+    obtain ⟨c, h, _⟩ := runCap_spec (classify os) 12 memMax os.length hmem hM (by decide)
+      (kidsOf os pid) [] os.length 0 0 (by omega) (by omega)
+    simp [h, Outcome.map]
+  | none => simp [Outcome.map]
 
-/-- **F-C13-f**: three `Pages` nodes with `Count` = i64::MAX, i64::MAX, 2: the checked `usize` sum in
-`size_hint` overflows -/
-theorem getPages_sum_overflow_witness (memMax : Nat) :
-    getPages memMax catRef (countDoc (2^63 - 1) (2^63 - 1) 2) = .panic S_SUM := by
-  apply getPages_first_yield
-  have hh : sizeHintRaw (countDoc (2^63 - 1) (2^63 - 1) 2) (some [.ref 20 0, .ref 21 0, .ref 22 0]) [] = 2 ^ 64 := by decide
-  unfold afterYield
-  simp only [hh, true_or, if_true]
-  rw [if_pos (by decide)]
+theorem getPages_total (memMax : Nat) (trailer : Dict) (os : Objects)
+    (hmem : (2 * os.length + 4) * 12 ≤ memMax) (hM : memMax ≤ ISIZE_MAX) (s : String) :
+    getPages memMax trailer os ≠ .panic s := by
+  rw [getPages_eq_pageIter memMax trailer os hmem hM]; simp
 
-/-- **F-C13-f2**: `Count` = 2^62: `Vec::with_capacity(Count + 1)` exceeds `isize::MAX` bytes -/
-theorem getPages_capacity_witness (memMax : Nat) :
-    getPages memMax catRef (countDoc (2^62) 0 0) = .panic S_CAP := by
-  apply getPages_first_yield
-  have hh : sizeHintRaw (countDoc (2^62) 0 0) (some [.ref 20 0, .ref 21 0, .ref 22 0]) [] = 2 ^ 62 := by decide
-  unfold afterYield
-  simp only [hh, true_or, if_true]
-  rw [if_neg (by decide)]
-  unfold growCap allocCheck
-  simp only [if_true]
-  have : max 4 (satAdd1 (2 ^ 62)) = 2 ^ 62 + 1 := by decide
-  rw [this, if_pos (by decide)]
+/-- **no allocation beyond what the objects justify**: the collected vector's capacity is at most
+max(4, 2·pages found) ≤ max(4, 2·|objects|) elements, whatever the file says -/
+theorem collectPages_capacity (esz memMax : Nat) (trailer : Dict) (os : Objects)
+    (hmem : (2 * os.length + 4) * esz ≤ memMax) (hM : memMax ≤ ISIZE_MAX) (hesz : 1 ≤ esz) :
+    ∃ c, collectPages esz memMax trailer os = .ok (pageIter trailer os, c) ∧
+      c ≤ max 4 (2 * (pageIter trailer os).length) ∧ (pageIter trailer os).length ≤ os.length := by
+  rw [pageIter_eq]
+  unfold collectPages
+  cases hr : pageRoot trailer os with
+  | some pid =>
+    obtain ⟨c, h, hc⟩ := runCap_spec (classify os) esz memMax os.length hmem hM hesz
+      (kidsOf os pid) [] os.length 0 0 (by omega) (by omega)
+    exact ⟨c, h, by simpa using hc, run_length_le _ _ _ _⟩
+  | none => exact ⟨0, rfl, by simp, by simp⟩
 
-/-- **F-C13-f3**: `Count` = 2^40: a 12 TB allocation; with less memory than that the process aborts -/
-theorem getPages_alloc_witness (memMax : Nat) (h : memMax < 2 ^ 40 * 12) :
-    getPages memMax catRef (countDoc (2^40) 0 0) = .panic S_ALLOC := by
-  apply getPages_first_yield
-  have hh : sizeHintRaw (countDoc (2^40) 0 0) (some [.ref 20 0, .ref 21 0, .ref 22 0]) [] = 2 ^ 40 := by decide
-  unfold afterYield
-  simp only [hh, true_or, if_true]
-  rw [if_neg (by decide)]
-  unfold growCap allocCheck
-  simp only [if_true]
-  have : max 4 (satAdd1 (2 ^ 40)) = 2 ^ 40 + 1 := by decide
-  rw [this, if_neg (by decide), if_pos (by omega)]
+/-- `get_object_page` is total -/
+theorem getObjectPage_total (memMax : Nat) (trailer : Dict) (os : Objects) (id : ObjId)
+    (hmem : (2 * os.length + 4) * 12 ≤ memMax) (hM : memMax ≤ ISIZE_MAX) (s : String) :
+    getObjectPage memMax trailer os id ≠ .panic s := by
+  unfold getObjectPage
+  rw [getPages_eq_pageIter memMax trailer os hmem hM]
+  simp only
+  generalize pageIter trailer os = pages
+  induction pages with
+  | nil => simp [objectPageLoop]
+  | cons p rest ih =>
+    unfold objectPageLoop
+    repeat' split
+    all_goals first
+      | (simp; done)
+      | exact ih
 
-/-! ### instantiation of `runCap_partial` for concrete documents -/
+/-! ## get_toc -/
 
-/-- the arrays the iterator can ever hold: some node's `Kids` -/
-def IsKidsArr (os : Objects) (A : List Obj) : Prop := ∃ id, kidsOf os id = some A
-
-/-- every list the iterator holds is a suffix of some `Kids` array; the stack respects the depth limit -/
-def SuffInv (os : Objects) (k : Option (List Obj)) (stk : List (List Obj)) : Prop :=
-  (∀ l, k = some l → ∃ A, IsKidsArr os A ∧ l <:+ A) ∧
-  (∀ l ∈ stk, ∃ A, IsKidsArr os A ∧ l <:+ A) ∧ stk.length ≤ PAGE_TREE_DEPTH_LIMIT
-
-theorem classify_pages (os : Objects) (kid : Obj) (ks : Option (List Obj)) (h : classify os kid = .pages ks) :
-    ∃ id, ks = kidsOf os id := by
-  unfold classify at h
+/-- **`get_toc` never panics**, for every document and fuel -/
+theorem getToc_no_panic (memMax : Nat) (trailer : Dict) (os : Objects) (fuel : Nat)
+    (hmem : (2 * os.length + 4) * 12 ≤ memMax) (hM : memMax ≤ ISIZE_MAX) (s : String) :
+    getToc memMax trailer os fuel ≠ some (.panic s) := by
+  intro h
+  unfold getToc at h
   split at h
-  · cases h
-  · rename_i id _
-    split at h
-    · cases h
-    · split at h
-      · cases h
-      · split at h
-        · cases h; exact ⟨id, rfl⟩
-        · cases h
+  · simp at h
+  · simp at h
+  · rename_i s' h'; exact getOutlines_no_panic _ _ _ _ h'
+  · split at h
+    · simp at h
+    · rw [getPages_eq_pageIter memMax trailer os hmem hM] at h
+      simp at h
 
-theorem suffInv_iterInv (os : Objects) : IterInv (classify os) (SuffInv os) where
-  skip := by
-    intro kid rest stk ⟨h1, h2, h3⟩
-    refine ⟨?_, h2, h3⟩
-    intro l hl; cases hl
-    obtain ⟨A, hA, hs⟩ := h1 _ rfl
-    exact ⟨A, hA, (List.suffix_cons kid rest).trans hs⟩
-  down := by
-    intro kid rest stk ks ⟨h1, h2, h3⟩ hc hd
-    obtain ⟨id, hid⟩ := classify_pages os kid ks hc
-    refine ⟨?_, ?_, ?_⟩
-    · intro l hl; exact ⟨l, ⟨id, by rw [← hid, hl]⟩, List.suffix_refl l⟩
-    · intro l hl
-      split at hl
-      · exact h2 l hl
-      · rcases List.mem_cons.mp hl with rfl | hl
-        · obtain ⟨A, hA, hs⟩ := h1 _ rfl
-          exact ⟨A, hA, (List.suffix_cons kid l).trans hs⟩
-        · exact h2 l hl
-    · split
-      · exact h3
-      · simp only [List.length_cons]; omega
-  popS := by
-    intro top st ⟨_, h2, h3⟩
-    refine ⟨?_, fun l hl => h2 l (List.mem_cons_of_mem _ hl), by simp only [List.length_cons] at h3; omega⟩
-    intro l hl; cases hl; exact h2 _ List.mem_cons_self
-  popN := by
-    intro top st ⟨_, h2, h3⟩
-    refine ⟨?_, fun l hl => h2 l (List.mem_cons_of_mem _ hl), by simp only [List.length_cons] at h3; omega⟩
-    intro l hl; cases hl; exact h2 _ List.mem_cons_self
 
-theorem sum_map_suffix_le (f : Obj → Nat) (l A : List Obj) (h : l <:+ A) : (l.map f).sum ≤ (A.map f).sum := by
-  obtain ⟨t, rfl⟩ := h
-  simp [List.map_append, List.sum_append]
-
-theorem sum_flatten_le (f : Obj → Nat) (B : Nat) : ∀ (stk : List (List Obj)),
-    (∀ l ∈ stk, (l.map f).sum ≤ B) → ((stk.flatten).map f).sum ≤ stk.length * B := by
-  intro stk
-  induction stk with
-  | nil => intro _; simp
-  | cons a rest ih =>
-    intro h
-    have h1 := h a List.mem_cons_self
-    have h2 := ih (fun l hl => h l (List.mem_cons_of_mem _ hl))
-    simp only [List.flatten_cons, List.map_append, List.sum_append, List.length_cons]
-    have : (rest.length + 1) * B = rest.length * B + B := by rw [Nat.add_mul]; simp
-    omega
-
-/-- on the states the iterator can reach, `size_hint` is at most (depth limit + 1) × the largest
-summed `Count` hint of a single `Kids` array -/
-theorem sizeHint_le_of_suffInv (os : Objects) (B0 : Nat)
-    (hB : ∀ A, IsKidsArr os A → (A.map (kidCount os)).sum ≤ B0)
-    (k : Option (List Obj)) (stk : List (List Obj)) (h : SuffInv os k stk) :
-    sizeHintRaw os k stk ≤ (PAGE_TREE_DEPTH_LIMIT + 1) * B0 := by
-  obtain ⟨h1, h2, h3⟩ := h
-  unfold sizeHintRaw
-  simp only [List.map_append, List.sum_append]
-  have hk : ((k.getD []).map (kidCount os)).sum ≤ B0 := by
-    cases k with
-    | none => simp
-    | some l =>
-      obtain ⟨A, hA, hs⟩ := h1 l rfl
-      exact Nat.le_trans (sum_map_suffix_le _ _ _ hs) (hB A hA)
-  have hs := sum_flatten_le (kidCount os) B0 stk (by
-    intro l hl
-    obtain ⟨A, hA, hs⟩ := h2 l hl
-    exact Nat.le_trans (sum_map_suffix_le _ _ _ hs) (hB A hA))
-  have : stk.length * B0 ≤ PAGE_TREE_DEPTH_LIMIT * B0 := Nat.mul_le_mul_right _ h3
-  have e : (PAGE_TREE_DEPTH_LIMIT + 1) * B0 = PAGE_TREE_DEPTH_LIMIT * B0 + B0 := by rw [Nat.add_mul]; simp
-  omega
-
-/-- **C13 for `get_pages`, partial, concrete documents**: if in every `Kids` array of the document
-the `Count` hints (1 per page / foreign kid, `max(0, Count)` per `Pages` kid) sum to at most `B0`, and
-`(2·|objects| + 257·B0 + 4)·12` bytes are available (≤ isize::MAX), then `get_pages` returns — for
-documents of every size and shape, cyclic or not. -/
-theorem getPages_partial (memMax : Nat) (trailer : Dict) (os : Objects) (B0 : Nat)
-    (hB : ∀ A, IsKidsArr os A → (A.map (kidCount os)).sum ≤ B0)
-    (hmem : (2 * os.length + (PAGE_TREE_DEPTH_LIMIT + 1) * B0 + 4) * 12 ≤ memMax) (hM : memMax ≤ ISIZE_MAX)
-    (s : String) : getPages memMax trailer os ≠ .panic s := by
-  unfold getPages collectPages
-  split
-  · rename_i pid _
-    refine runCap_partial (classify os) (sizeHintRaw os) 12 memMax ((PAGE_TREE_DEPTH_LIMIT + 1) * B0) os.length
-      (SuffInv os) (suffInv_iterInv os) (sizeHint_le_of_suffInv os B0 hB) hmem hM (by decide)
-      (kidsOf os pid) [] os.length 0 0 ?_ (by omega) (by omega) s
-    refine ⟨?_, by simp, by simp⟩
-    intro l hl; exact ⟨l, ⟨pid, hl⟩, List.suffix_refl l⟩
-  · simp
-
-/-- non-vacuity: a one-node tree with a dangling kid meets the guard with `B0 = 1` -/
-example : ∀ A, IsKidsArr [((2, 0), .dict [(KIDS, .arr [.ref 3 0])])] A →
-    (A.map (kidCount [((2, 0), .dict [(KIDS, .arr [.ref 3 0])])])).sum ≤ 1 := by
-  intro A ⟨id, h⟩
-  by_cases hid : ((2, 0) : ObjId) = id
-  · subst hid
-    have : kidsOf [((2, 0), .dict [(KIDS, .arr [.ref 3 0])])] (2, 0) = some [.ref 3 0] := by rfl
-    rw [this] at h; cases h; decide
-  · simp [kidsOf, getDictionary, getObject, Objects.get, hid] at h
-
-end Lopdf
+end Lopdf.Q13
